@@ -53,7 +53,8 @@ Definition scope_release (cnt : Z -> Z) (p : Z) : Z -> Z := upd cnt p (cnt p - 1
 
 (* c_limited: the one connection between the two hosts is a limited (relayed) one *)
 (* c_rcmgr: the streams carry real resource-manager scopes (a second SetProtocol is refused) *)
-Record cfg := mkCfg { limD : Z -> Z; limL : Z -> Z; c_limited : bool; c_rcmgr : bool }.
+(* c_blankD: the dialer is a BlankHost: NewStream always negotiates (no optimistic path) *)
+Record cfg := mkCfg { limD : Z -> Z; limL : Z -> Z; c_limited : bool; c_rcmgr : bool; c_blankD : bool }.
 
 (* what one open (NewStream + first use) shows:
    o_res   0 ok | 1 negotiation failed | 2 dialer's scope refused | 3 no protocols |
@@ -100,13 +101,19 @@ Section MS.
      supports can have been added); [race]: the listener's reset overtakes its
      acknowledgement (only matters when the listener's scope refuses);
      [allow]: the context allows a limited connection. *)
+  (* BasicHost.preferredProtocol: the first requested ID the peerstore lists for
+     the listener (BlankHost.NewStream does not look) *)
+  Definition preferred (c : cfg) (t : table) (kn extra reqs : list Z) : option Z :=
+    if c_blankD c then None
+    else find (fun r => memz r kn || memz r (filter (supports t) extra)) reqs.
+
   Definition open1 (c : cfg) (t : table) (kn : list Z) (b : bst)
              (reqs extra : list Z) (race allow : bool) : bst * ores :=
     let sup := supports t in
     (* Swarm.NewStream / Conn.NewStream: a limited connection carries a new
        stream only for a context made with network.WithAllowLimitedConn *)
     if c_limited c && negb allow then (b, fail_res 5) else
-    match find (fun r => memz r kn || memz r (filter sup extra)) reqs with
+    match preferred c t kn extra reqs with
     | Some p =>
         (* optimistic: SetProtocol(pref), lazy select *)
         match scope_try (limD c) (b_out b) p with
